@@ -425,7 +425,6 @@ func main() {
 				cfgs = append(cfgs, unit(6, 7, []int{7}, true), unit(7, 8, []int{7}, true), unit(8, 9, []int{7}, true))
 				if !r.Quick() {
 					cfgs = append(cfgs, unit(6, 7, []int{7}, false), unit(5, 7, []int{0, 1}, false), unit(9, 10, []int{7}, true),
-						unit(7, 8, []int{7}, false),
 						&cfg{Name: "size=value L=5 K=4", Limit: 5, Keys: 4, Values: []int{0, 1, 2, 3, 5, 6}, BySize: true},
 						&cfg{Name: "size=value L=6 K=5", Limit: 6, Keys: 5, Values: []int{0, 1, 2, 3}, BySize: true})
 				}
@@ -444,8 +443,9 @@ func main() {
 				fmt.Printf("  %-28s states=%d transitions=%d depth=%d violations=%d exhaustive=%v\n", c.Name, res.States, res.Transitions, res.Depth, res.Violations, res.Exhaustive)
 			}
 			if hooks {
-				// every history to a small depth without merging (hidden state no key shows)
-				d := mc.Pick(r, 5, 6)
+				// every history to a small depth without merging (hidden state no key shows);
+				// 16 operations per step: depth 6 would be 28 M histories and 25 GB
+				d := 5
 				for _, c := range []*cfg{unit(2, 3, []int{0, 1}, false), {Name: "size=value L=3 K=2", Limit: 3, Keys: 2, Values: []int{0, 1, 2, 4}, BySize: true}} {
 					c.Name += fmt.Sprintf(" unmerged to depth %d", d)
 					res := makeBFS(c, &cnt, false, d).Run(r)
